@@ -359,6 +359,14 @@ package tcp
 //@   ensures ghost(lastTCPAck) == int(uint32(ack))
 //@   ensures ghost(sentNonFin) == old(ghost(sentNonFin)) + ite(flags & flagFin == 0, 1, 0)
 //@   ensures ghost(sentFin) == old(ghost(sentFin)) + ite(flags & flagFin != 0, 1, 0)
+// (C06: the segment carries the ports of the identifier given - source = local, destination =
+// remote -, the window clamped to 16 bits, the option bytes given right after the fixed header,
+// and leaves on the route given with the hop limit and payload views given)
+//@   at_call WritePacket@C06 requires recv == r && protocol == ProtocolNumber && ttl == caller(ttl) && len(hdr.buf) - hdr.usedIdx == 20 + len(opts)
+//@             && be16(hdr.buf, hdr.usedIdx) == id.LocalPort && be16(hdr.buf, hdr.usedIdx + 2) == id.RemotePort
+//@             && be16(hdr.buf, hdr.usedIdx + 14) == uint16(imin(int(rcvWnd), 0xffff))
+//@             && forall(k, 0, len(opts), hdr.buf[hdr.usedIdx + 20 + k] == opts[k])
+//@             && payload.size == data.size && arr(payload.views) == arr(data.views) && off(payload.views) == off(data.views) && len(payload.views) == len(data.views)
 //@   loop 1 invariant -1 <= rangeindex && rangeindex < len(data.views)
 //@   modifies modset(NETSEND)
 
